@@ -209,9 +209,9 @@ def distinct_containers(self: Ref['mqtt.client.pubsubs.MQTTProtocol']) -> bool:
 
 
 @spec
-def no_other_timer(a: Ref['obj']) -> bool:
-    """two-state: the only timer created by this call (if any) is a"""
-    return forall(lambda t: implies(is_fresh(obj_at(t)) and isa(obj_at(t), 'DelayedCall'), obj_at(t) == a))
+def no_other_timer(a: Any) -> bool:
+    """two-state: the only timer created by this call (if any) is the one the value a refers to"""
+    return forall(lambda t: implies(is_fresh(obj_at(t)) and isa(obj_at(t), 'DelayedCall'), is_ref(a) and obj_at(t) == as_ref(a)))
 
 
 @spec
@@ -240,9 +240,22 @@ def own_ok(self: Ref['mqtt.client.pubsubs.MQTTProtocol']) -> bool:
 
 
 @spec
+def conn_timers_ok(self: Ref['mqtt.client.pubsubs.MQTTProtocol']) -> bool:
+    """every ACTIVE CONNACK-timeout timer of this protocol guards a CONNECT request whose Deferred has not fired: whenever
+    the reactor can call connectError, its precondition holds (C16: no exception from a timer; C04: fires once)"""
+    return forall(lambda t: implies(
+        isa(obj_at(t), 'DelayedCall') and is_int(obj_at(t).t_status) and obj_at(t).t_status == 0 and obj_at(t).t_owner == self
+        and is_int(obj_at(t).t_fn) and obj_at(t).t_fn == fn('mqtt.client.base.MQTTBaseProtocol.doConnect.connectError')
+        and is_ref(obj_at(t).t_arg),
+        isa(obj_at(t).t_arg, 'mqtt.pdu.CONNECT') and obj_at(t).t_arg.alarm == obj_at(t)
+        and isa(obj_at(t).t_arg.deferred, 'Deferred') and is_bool(obj_at(t).t_arg.deferred.d_fired)
+        and not obj_at(t).t_arg.deferred.d_fired and obj_at(t).t_arg.deferred.d_owner == obj_at(t).t_arg))
+
+
+@spec
 def inv(self: Ref['mqtt.client.pubsubs.MQTTProtocol']) -> bool:
     return (wf_proto(self) and distinct_containers(self)
-            and inv_W(self) and inv_R(self) and inv_S(self) and inv_U(self) and inv_X(self) and inv_Q(self))
+            and inv_W(self) and inv_R(self) and inv_S(self) and inv_U(self) and inv_X(self) and inv_Q(self) and conn_timers_ok(self))
 
 
 @spec
